@@ -5,6 +5,7 @@ import (
 	"errors"
 	"flag"
 	"math/big"
+	"sort"
 	"strings"
 
 	"github.com/go-spatial/geom"
@@ -232,3 +233,104 @@ func borderReplay(args []string) int {
 }
 
 func itoa(i int) string { return big.NewInt(int64(i)).String() }
+
+func init() { register("border-fine", borderFine) }
+
+// borderFine: "by any amount" below the quarter-pixel lattice of MC_Border, on the built-in grids whose extent does not divide evenly
+// into pixels (there the pixel grid and the extent differ by the reported deviation, and a pixel size that is rounded instead of
+// truncated makes the grid reach PAST the right / top border): one vertex of a triangle 2e-9 units .. 1/16 pixel outside each of
+// the four borders, the others well inside; both values of the ignore flag; judged by BorderFineTrace.tla.
+func borderFine(args []string) int {
+	fs := flag.NewFlagSet("border-fine", flag.ExitOnError)
+	outp := fs.String("out", "-", "")
+	fs.Parse(args)
+	out := newJSONL(*outp)
+	defer out.close()
+	cases := map[string][]int{
+		"WebMercatorQuad":         {0, 1, 3, 6, 8, 13, 16, 17, 19},
+		"EuropeanETRS89_LAEAQuad": {4, 7, 10, 12, 14},
+		"NZTM2000Quad":            {4, 6, 11, 14, 17},
+		"NetherlandsRDNewQuad":    {0, 5, 14},
+		"UPSArcticWGS84Quad":      {2, 9},
+	}
+	names := make([]string, 0, len(cases))
+	for n := range cases {
+		names = append(names, n)
+	}
+	sort.Strings(names)
+	for _, id := range names {
+		dg, err := loadDocGeom(id)
+		if err != nil {
+			fatal("%v", err)
+		}
+		t, err := tms20.LoadEmbeddedTileMatrixSet(id)
+		if err != nil {
+			fatal("%v", err)
+		}
+		// the extent as the code sees it: the bounding box of matrix 0 converted to 1e-10 integers
+		bl, tr, err := t.MatrixBoundingBox(0)
+		if err != nil {
+			fatal("%v", err)
+		}
+		minX, minY, maxX, maxY := texelInt(bl[0]), texelInt(bl[1]), texelInt(tr[0]), texelInt(tr[1])
+		span := maxX - minX
+		for _, z := range cases[id] {
+			pix := span >> uint(dg.level(z))
+			for _, side := range []string{"left", "bottom", "right", "top"} {
+				for _, d := range []int64{20, pix / 10000, pix / 100, pix / 16} {
+					if d < 20 {
+						continue
+					}
+					midX, midY := minX+span/2+3*pix, minY+span/2+3*pix
+					var vx, vy int64
+					switch side {
+					case "left":
+						vx, vy = minX-d, midY
+					case "bottom":
+						vx, vy = midX, minY-d
+					case "right":
+						vx, vy = maxX+d, midY // the right and top borders themselves are outside already
+					default:
+						vx, vy = midX, maxY+d
+					}
+					pts := [][2]int64{{vx, vy}, {midX - 40*pix, midY - 30*pix}, {midX + 35*pix, midY - 25*pix}}
+					ring := make([][2]float64, 3)
+					for i, q := range pts {
+						// at 2e7 m a float64 step is 37 units of 1e-10: take the nearest float and measure where it really is
+						ring[i] = [2]float64{float64(q[0]) / 1e10, float64(q[1]) / 1e10}
+					}
+					ax, ay := texelInt(ring[0][0]), texelInt(ring[0][1])
+					switch side {
+					case "left":
+						d = minX - ax
+					case "bottom":
+						d = minY - ay
+					case "right":
+						d = ax - maxX
+					default:
+						d = ay - maxY
+					}
+					if d < 2 || ax < minX-span || ay < minY-span {
+						continue // not clearly outside after rounding to a float
+					}
+					for _, ig := range []bool{false, true} {
+						oc := func() (oc string) {
+							defer func() {
+								if r := recover(); r != nil {
+									oc = classifyPanic(r)
+								}
+							}()
+							res := snap.SnapPolygon(geom.Polygon{ring}, t, []tms20.TMID{z}, snap.Config{KeepPointsAndLines: true, IgnoreOutsideGrid: ig})
+							if len(res) == 0 {
+								return "empty"
+							}
+							return "snapped"
+						}()
+						out.put(map[string]any{"set": id, "z": z, "side": side, "d": d, "pix": pix, "ig": ig, "outcome": oc})
+					}
+				}
+			}
+		}
+	}
+	return 0
+}
